@@ -60,14 +60,14 @@ class Linker:
         nm = t.params[idx][0]
         return nm if nm in t.sinks else None
 
-    def body(self, fname, sink=None):
+    def body(self, fname, sink=None, keep_sets=False):
         t = T.fn_tir(self.f, fname)
         if sink is None:
             ws = [s for s, k in t.sinks.items() if k == "writer"]
             if not ws:
                 return t, ("seq", [])
             sink = ws[0]
-        return t, T.project(t.effects, sink)
+        return t, T.project(t.effects, sink, None, keep_sets)
 
 
 def param_fields(node, pname):
